@@ -57,10 +57,10 @@ class Section:
         self.opts = {}
 
 
-CLAUSE_RE = re.compile(r"^(requires|ensures|invariant|invariant_except_break|loop_ensures|decreases|recommends|opens_invariants|no_unwind|returns_clause)(@(\d+))?(\[([^\]]*)\])?\s*(.*)$")
+CLAUSE_RE = re.compile(r"^(itername|requires|ensures|invariant|invariant_except_break|loop_ensures|decreases|recommends|opens_invariants|no_unwind|returns_clause)(@(\d+))?(\[([^\]]*)\])?\s*(.*)$")
 
 
-SHORT = [(re.compile(r"\bnew\(([A-Za-z_][A-Za-z0-9_.]*)\)"), r"(*final(\1))"), (re.compile(r"\bpre\(([A-Za-z_][A-Za-z0-9_.]*)\)"), r"(*old(\1))")]
+SHORT = [(re.compile(r"\bnew\(([A-Za-z_][A-Za-z0-9_.]*)\)"), r"(*final(\1))"), (re.compile(r"\bpre\(([A-Za-z_][A-Za-z0-9_.]*)\)"), r"(*old(\1))"), (re.compile(r"\bcur\(([A-Za-z_][A-Za-z0-9_.]*)\)"), r"(*\1)")]
 
 
 def expand_short(text):
@@ -575,6 +575,13 @@ class Gen:
                 bykind = {}
                 for c in cl:
                     bykind.setdefault(c["kind"], []).append(c)
+                if "itername" in bykind:
+                    # `for PAT in EXPR`  ->  `for PAT in it: EXPR`   (ghost name of the loop's iterator)
+                    j = lkw + 1
+                    while not (toks[j].text == "in" and toks[j].kind == "ident"):
+                        j = pair[j] + 1 if toks[j].text in ("(", "[", "{") else j + 1
+                    ipos = toks[j + 1].start - bb0
+                    inserts.append((ipos, 0, [(bykind["itername"][0]["text"].strip() + ":", None)], "split"))
                 for kind in ("invariant_except_break", "invariant", "loop_ensures", "decreases"):
                     if kind not in bykind:
                         continue
@@ -608,7 +615,7 @@ class Gen:
                         raise ExtractError("lost anchor: hint anchor %r occurs %d times in %s" % (pat, cnt, qual))
                     p = body.index(pat)
                     pos = p + len(pat) if h["where"] == "after" else p
-                inserts.append((pos, 1, [(txt, "%s/hint/L%d" % (qual, h["line"]))], "line"))
+                inserts.append((pos, 1, [("proof { " + txt + " }", "%s/hint/L%d" % (qual, h["line"]))], "line"))
         # apply rewrites to the body text *before* computing positions? positions are on original
         # text; rewrites are applied per segment afterwards (they never span an insertion point).
         inserts.sort(key=lambda x: (x[0], x[1]))
